@@ -22,7 +22,7 @@ import copy
 from ..srcmodel import AnalysisError, U, calls_in, walk_shallow, target_names, names_in, kwarg
 from ..symexpr import SymEval, Atoms, Alg, Rat, sym, const
 from ..normalise import single_exit
-from ..engines.blockeval import BlockEval, T
+from ..engines.blockeval import BlockEval, T, clone
 
 COPIES = [
     ('src/mbi/inference.py', 'FactoredInference._setup', 'block'),
@@ -256,7 +256,7 @@ def floored(e):
 
 def check_features(ctx, fi, block, total):
     where = fi.qualname
-    stmts = copy.deepcopy(block)
+    stmts = clone(block)
     if total is None:
         total = '__total__'
         stmts, _ = single_exit(stmts, total)
@@ -298,7 +298,7 @@ def check_features(ctx, fi, block, total):
            construct='solve in ' + where)
 
     def with_v(e):
-        return Replace(lambda n: name('__v__') if isinstance(n, ast.Subscript) and T(n) == solve_text else None).visit(copy.deepcopy(e))
+        return Replace(lambda n: name('__v__') if isinstance(n, ast.Subscript) and T(n) == solve_text else None).visit(clone(e))
 
     # ---- accumulators: start empty, grow by append only, under exactly the row-space test -------------------------
     accs = {}
@@ -408,7 +408,7 @@ def check_features(ctx, fi, block, total):
             if (acc, idx) in roles:
                 return name(roles[(acc, idx)])
         return None
-    R = Replace(view).visit(copy.deepcopy(R))
+    R = Replace(view).visit(clone(R))
     symbols = {'__var__', '__est__', '__acc__', '__other__'}
     lists = {'__acc__'} | {roles[k] for k in roles if T(entry.get(k[0])) in ('[]', 'list()')}
     default = full = None
